@@ -179,6 +179,11 @@ theorem Approver_fn_velocity_onchain {C A T O : Type} (appr : A → T → List O
 /-- `control()` (the snapshot that is persisted) and `set_control` (restore) -/
 theorem Approver_fn_velocity_control {C A : Type} (self : VelocityApprover C A) : self.control = VelocityApprover.control_fn self := rfl
 
+/-- `VelocityApprover::new`: the approver starts from exactly the control it is given (e.g. the restored one) -/
+theorem Approver_fn_velocity_new {C A : Type} (clock : C) (c : VelocityControl) (d : A) :
+    (VelocityApprover.new clock c d).control = c ∧ (VelocityApprover.new clock c d).delegate = d
+      ∧ (VelocityApprover.new clock c d).clock = clock := ⟨rfl, rfl, rfl⟩
+
 theorem Approver_fn_velocity_set_control {C A : Type} (self : VelocityApprover C A) (c : VelocityControl) :
     VelocityApprover.set_control self c = { self with control := c } := rfl
 
